@@ -265,15 +265,13 @@ MUTANTS = [
          old="""            self._input_buffer.put(None)
             self._onboard_thread.join()
         self.servlet.stop()
-        self._gather_thread.join()
-        self._clear_ledger()""",
+        # All the workers have exited, hence all the results that will ever come""",
          new="""            pass
         self.servlet.stop()
-        self._gather_thread.join()
         if self._onboard_thread is not None:
             self._input_buffer.put(None)
             self._onboard_thread.join()
-        self._clear_ledger()"""),
+        # All the workers have exited, hence all the results that will ever come"""),
     dict(id='C11-m2', prop='C11', file='mpserver/_servlet.py', desc='ThreadServlet.stop joins only the first worker',
          old="""        assert self._started
         self._q_in.put(None)
@@ -296,8 +294,8 @@ MUTANTS = [
     def input_queue_type(self):
         return 'thread'"""),
     dict(id='C11-m3', prop='C11', file='mpserver/_worker.py', desc='single-mode worker does not re-broadcast the stop sentinel to fellow workers',
-         old="                if z is None:\n                    q_in.put(z)  # broadcast to one fellow worker\n                    q_out.put(z)\n                    break",
-         new="                if z is None:\n                    q_out.put(z)\n                    break"),
+         old="                if z is None:\n                    q_in.put(z)  # broadcast to one fellow worker\n",
+         new="                if z is None:\n"),
     dict(id='C11-m5', prop='C11', file='mpserver/_servlet.py', desc='D11 regression in SequentialServlet: earlier members left running when a later member fails to start',
          old="                for ss in self._servlets[:i]:\n                    ss.stop()\n                self._qs = []\n                raise", new="                self._qs = []\n                raise"),
     dict(id='C11-m6', prop='C11', file='mpserver/_server.py', desc='D26 regression: ledger not cleared on exit',
@@ -376,4 +374,36 @@ MUTANTS = [
          old="            logger = logging.getLogger(record.name)\n            if record.levelno >= logger.getEffectiveLevel():", new="            logger = logging.getLogger(record.name)\n            if getattr(logger, '_last_msg', None) == record.getMessage():\n                continue\n            logger._last_msg = record.getMessage()\n            if record.levelno >= logger.getEffectiveLevel():"),
     dict(id='C20-m3', prop='C20', file='multiprocessing/context.py', desc='parent handles records regardless of the parent logger level',
          old="            if record.levelno >= logger.getEffectiveLevel():\n                logger.handle(record)", new="            if record.levelno >= logging.DEBUG:\n                logger.handle(record)"),
+
+    # ---------------- regressions of D36-D39
+    dict(id='C11-m9', prop='C11', file='mpserver/_worker.py', desc='D36 regression: single-mode worker forwards the stop sentinel downstream at once (overtakes fellow workers; exit hangs with large results in flight)',
+         old="""                    # ends the reader of `q_out` after all the workers have exited.
+                    break""",
+         new="""                    # ends the reader of `q_out` after all the workers have exited.
+                    q_out.put(z)
+                    break"""),
+    dict(id='C07-m9', prop='C07', file='mpserver/_server.py', desc='D37 regression: a call whose wait for a slot expired neither re-checks for a freed slot nor passes the wake-up on (either half alone repairs D37: the two one-half mutants are equivalent and not listed)',
+         old="""                        if len(pipeline) < self._capacity:
+                            # A slot was freed just as the wait expired.
+                            break
+                        # A notification issued just after this wait had expired
+                        # is consumed by this (leaving) waiter nonetheless. Pass it on,
+                        # otherwise another waiter could sleep until its own deadline
+                        # next to a free slot. (A needless wake-up is harmless: the
+                        # waiter re-checks and goes back to waiting.)
+                        self._pipeline_notfull.notify()
+""",
+         new=""""""),
+    dict(id='C04-m9', prop='C04', file='mpserver/_server.py', desc="D38 regression: a worker's own TimeoutError is reported as the call timing out",
+         old="""            if fut.done() and not fut.cancelled() and fut.exception() is e:
+                # The wait did not time out: this is the request's own failure,
+                # a `TimeoutError` raised by a worker.
+                raise
+            fut.cancel()""",
+         new="""            fut.cancel()"""),
+    dict(id='C12-m9', prop='C12', file='multiprocessing/context.py', desc='D39 regression: the logger thread of a killed child is left to the finalizer (dead-lock when collected inside threading critical section)',
+         old="""        else:
+            self._logger_thread_.join(timeout=1)""",
+         new="""        else:
+            pass"""),
 ]
